@@ -108,6 +108,9 @@ def attribute_exception(err: Dict[str, Any]) -> List[str]:
                            ("pams/agents/", "C20")):
             if fr[0].startswith(path) and prop not in out:
                 out.append(prop)
+        # an exception that escapes from the settlement of fills, whatever helper raised it
+        if fr[0].startswith("pams/simulator.py") and fr[1] == "_update_agents_for_execution" and "C05" not in out:
+            out.append("C05")
     return out
 
 
